@@ -166,6 +166,103 @@ def _cli(seq):
     return src, bad
 
 
+# ---- edge family (hunt C05): calls that cannot be written as OpenQASM must be refused, not logged. A program of this family may end in a
+# located runtime error; if it runs to the end its text is held to the same standard as every other program.
+EDGE_PRELUDE = PRELUDE + """class G<T> { public qubit q; public constructor() -> G<T> = default; public function rot(T ang) -> void { rx(this.q, ang); } }
+function both(qubit t, qubit u) -> void { cx(t, u); }
+"""
+EDGE_BODIES = {
+    "cx-same-variable": "cx(a, a);",
+    "cx-same-through-function": "both(a, a);",
+    "cx-same-through-plain": "plain(a, a);",
+    "cx-same-through-method": "o.ent(o.q);",
+    "cx-same-element": "cx(r[0], r[0]);",
+    "cx-index-pairs": "for (int i = 0; i < 2; i = i + 1) { for (int j = 0; j < 2; j = j + 1) { if (i != j) { cx(r[i], r[j]); } } }",
+    "cx-index-pairs-including-equal": "for (int i = 0; i < 2; i = i + 1) { for (int j = 0; j < 2; j = j + 1) { cx(r[i], r[j]); } }",
+    "cx-alias-handle": "qubit al = a; cx(al, a);",
+    "angle-overflow-to-inf": "float big = 10000000000.0f; for (int i = 0; i < 12; i = i + 1) { big = big * big; } rx(a, big);",
+    "angle-nan": "float big = 10000000000.0f; for (int i = 0; i < 12; i = i + 1) { big = big * big; } ry(a, big - big);",
+    "angle-negative-inf": "float big = 10000000000.0f; for (int i = 0; i < 12; i = i + 1) { big = big * big; } rz(r[1], 0.0f - big);",
+    "angle-large-finite": "rx(a, 123456.5f);",
+    "angle-int-through-type-parameter": "G<int> g = new G<int>(); g.rot(3);",
+    "angle-float-through-type-parameter": "G<float> g = new G<float>(); g.rot(0.5f);",
+}
+EDGE_THETA = {"angle-int-through-type-parameter": 3.0, "angle-float-through-type-parameter": 0.5, "angle-large-finite": 123456.5}
+EDGE_MUST_RUN = {"cx-index-pairs", "angle-large-finite", "angle-float-through-type-parameter", "angle-int-through-type-parameter"}
+
+
+def edge_programs():
+    for name, body in EDGE_BODIES.items():
+        for pre, post in (("", ""), ("h(a);", "x(r[1]);"), ("x(a); measure pad;", "reset a;")):
+            src = EDGE_PRELUDE + "function main() -> void {\n    qubit pad;\n    qubit a;\n    qubit[2] r;\n    O o = new O();\n    %s\n    %s\n    %s\n}\n" % (pre, body, post)
+            yield ("edge:%s:%s" % (name, "bare" if not pre else ("gates" if "measure" not in pre else "measured")), src, 5 + (1 if pre else 0) + EDGE_PRELUDE.count("\n") + 1)
+
+
+def _edge(item):
+    name, src, body_line = item
+    runs, capped = qcheck.dfs_outcomes(src, gc="own", max_runs=8, want="amps,ops,qasm")
+    bad = []
+    kind = name.split(":")[1]
+    for script, r in runs:
+        if r.crash or r.rec is None:
+            bad.append((script, "the interpreter died: %s %s" % (r.crash, r["fd2"][:200])))
+            continue
+        st = r.status()
+        if st == "runtime":
+            if kind in EDGE_MUST_RUN:
+                bad.append((script, "a program whose every gate call can be written as OpenQASM was stopped: %s" % r.rec.get("msg")))
+            elif not (r.rec.get("line", 0) > 0 and r.rec.get("col", 0) > 0):
+                bad.append((script, "the refusal carries no source position: %s" % r.rec.get("msg")))
+            continue
+        if st != "ok":
+            bad.append((script, "status %s: %s" % (st, r.rec.get("msg"))))
+            continue
+        for p in check_record(r.rec):
+            bad.append((script, p))
+        if kind in EDGE_THETA:
+            rots = [o for o in r.rec["ops"] if o[0] in ("rx", "ry", "rz") and abs(o[3] - EDGE_THETA[kind]) < 1e-9]
+            if not rots:
+                bad.append((script, "the program rotates by %r but no rotation with that angle was performed: %s" % (EDGE_THETA[kind], [o[:4] for o in r.rec["ops"] if o[0] in ("rx", "ry", "rz")])))
+    return name, src, bad, len(runs)
+
+
+def _cli_paths(_):
+    """the .qasm file is written NEXT TO THE SOURCE whatever the source is called, equals what --emit-qasm prints, and is not the source"""
+    src = PRELUDE + "function main() -> void {\n    qubit a;\n    h(a);\n    measure a;\n}\n"
+    bad = []
+    n = 0
+    for path, want in (("main.bloch", "main.qasm"), ("sub/main.bloch", "sub/main.qasm"), ("proj.v2/circuit", "proj.v2/circuit.qasm"), ("./circuit", "circuit.qasm"),
+                       ("dir.x/prog.bloch", "dir.x/prog.qasm"), ("a.b.bloch", "a.b.qasm"), ("saved.qasm", None), ("dir.y/saved.qasm", None)):
+        for extra in ([], ["--shots=2"]):
+            argv = ["bloch", "--emit-qasm"] + extra + [path]
+            r = vdrv.run_job({"id": "c", "kind": "cli", "opts": {"hook_draws": 1, "gc": "own"}, "argv": argv, "files": {path[2:] if path.startswith("./") else path: src}})
+            n += 1
+            rec = r.rec
+            if r.crash or rec is None:
+                bad.append("%s: CLI died: %s" % (" ".join(argv), r.crash))
+                continue
+            if rec["rc"] != 0:
+                bad.append("%s: CLI exit %s: %s" % (" ".join(argv), rec["rc"], rec["stderr"][-200:]))
+                continue
+            rel = path[2:] if path.startswith("./") else path
+            files = dict(rec["files"])
+            if rel.endswith(".qasm"):
+                if files.get(rel) != src:
+                    bad.append("%s: the source file was overwritten with the run's own output" % " ".join(argv))
+                files.pop(rel, None)
+            srcdir = rel.rsplit("/", 1)[0] if "/" in rel else ""
+            if len(files) != 1:
+                bad.append("%s: expected one .qasm file next to the source, found %s" % (" ".join(argv), sorted(files)))
+                continue
+            (fname, content), = files.items()
+            fdir = fname.rsplit("/", 1)[0] if "/" in fname else ""
+            if fdir != srcdir or (want is not None and fname != want):
+                bad.append("%s: the .qasm file was written to %r, not next to the source (%s)" % (" ".join(argv), fname, want or ("directory %r" % srcdir)))
+            if not rec["stdout"].endswith(content) or not content:
+                bad.append("%s: stdout does not end with the bytes of %s" % (" ".join(argv), fname))
+    return src, bad, n
+
+
 def main(tier):
     ck = vcheck.Check("C05", "translation_validation", tier)
     k = 4 if tier == "thorough" else 3
@@ -198,7 +295,17 @@ def main(tier):
         ncli += 1
         for p in bad:
             ck.violation("cli:" + " ".join(p.split(" ")[:5]), "%s\nprogram:\n%s" % (p, src), {"tool": "vdrv", "job": {"kind": "cli", "opts": {"hook_draws": 1, "gc": "own"}, "argv": ["bloch", "--emit-qasm", "main.bloch"], "files": {"main.bloch": src}}})
+    nedge = 0
+    for name, esrc, bad, n in vdrv.pmap(_edge, list(edge_programs()), chunksize=2):
+        nedge += 1
+        nruns += n
+        for script, p in bad:
+            ck.violation("edge:%s:%s" % (name.split(":")[1], " ".join(p.split(" ")[:5])), "%s\ncase %s\ndraws=%s\nprogram:\n%s" % (p, name, list(script), esrc),
+                         {"tool": "vdrv", "job": {"kind": "run", "opts": {"want": "amps,ops,qasm", "gc": "own", "draws": ",".join(map(str, script)), "warn": 0}, "blobs": {"src": esrc}}})
+    psrc, pbad, npaths = _cli_paths(None)
+    for p in pbad:
+        ck.violation("cli-path:" + " ".join(p.split(": ", 1)[1].split(" ")[:6]), "%s\nprogram:\n%s" % (p, psrc), {"tool": "text", "case": p + "\n" + psrc})
     ck.assumptions += ["angles are compared to the tapped rotation with the six-decimal precision of std::to_string (5e-7); the replay tolerance is 1e-5 per rotation",
                        "the reader accepts exactly what the property describes (header, one qreg/creg of equal size, g q[i]; r(theta) q[i]; cx q[i],q[j] with i != j; measure q[i] -> c[i]; reset q[i];)"]
     ck.finish({"programs": nprog, "disagreements_checked": nruns, "samples": ck.samples or ["(none)"], "programs_total": len(progs), "runs": nruns, "distinct_operation_sequences": nshapes,
-               "cli_programs": ncli, "statement_bound": k, "core_statement_bound": k + 1, "core_alphabet": len(CORE), "evaluations": nruns, "distinct_nontrivial": nshapes}, exhaustive=True)
+               "cli_programs": ncli, "edge_programs": nedge, "cli_path_runs": npaths, "statement_bound": k, "core_statement_bound": k + 1, "core_alphabet": len(CORE), "evaluations": nruns, "distinct_nontrivial": nshapes}, exhaustive=True)
